@@ -57,7 +57,10 @@ def codec(
     marshal = marshaller or marshals.marshaller(t=t)
     unmarshal = unmarshaller or unmarshals.unmarshaller(t=t)
     cls = codec_cls or Codec
-    if inspection.isbytestype(t):
+    # `t` may name the type by reference or wrap it (`NewType`, alias, qualifier),
+    #   the routine is bound to what it resolved to.
+    bound = getattr(unmarshal, "t", t)
+    if inspection.isbytestype(t) or inspection.isbytestype(bound):
         cdc = cls(
             marshal=marshal,
             unmarshal=unmarshal,
